@@ -208,3 +208,8 @@ impl Block for SymbolSync {
 }
 /* vim: textwidth=80
  */
+
+#[cfg(rustradio_verif)]
+pub mod verif_access {
+    include!(concat!(env!("RUSTRADIO_VERIF_DIR"), "/access/symbol_sync.rs"));
+}
